@@ -638,3 +638,23 @@ Theorem upload_wellformed_partial_thm :
   (forall batch ops x, In x (offered (final batch ops)) -> In x (issued (final batch ops))) /\
   (forall n, n < 16777216 -> adjust_id n = [n / 65536; (n / 256) mod 256; n mod 256]).
 Proof. split; [exact offered_issued_thm|exact adjust_id_thm]. Qed.
+
+(* ------------------------------------------------------------------ the stale in-memory list *)
+(* Outside the well-formed histories (a NON-passive login although keys are waiting) the
+   in-memory _unsent_prekeys list goes stale: a key consumed meanwhile is offered again at the
+   next passive login on the same layer although it is no longer stored. *)
+Definition stale_history : list op :=
+  [Connect; Authed true; Disconnected; Connect; Authed false; Consume 3; Disconnected; Connect].
+
+Theorem consumed_key_reoffered_refuted_thm :
+  wf 5 init (stale_history ++ [Authed true]) = false /\
+  let s := final 5 stale_history in
+  exists u x, snd (step 5 s (Authed true)) = [EUpload u] /\ In x (u_keys u) /\
+              In x (consumed s) /\ lookup_row (fst x) (rows s) = None.
+Proof.
+  split; [vm_compute; reflexivity|]. cbn zeta.
+  eexists. exists (3, 2). split; [vm_compute; reflexivity|]. split; [|split].
+  - vm_compute. right. right. left. reflexivity.
+  - vm_compute. left. reflexivity.
+  - vm_compute. reflexivity.
+Qed.
